@@ -504,5 +504,7 @@ pub fn main(args: &[String]) {
         nm_oracle(&mods[..8.min(mods.len())], &mut rep);
     }
     let _ = (Meta::Disable, NAMES, validator as fn(&str) -> _);
+    // the repository's own bridges: what the bindings refer to is what the built libraries export
+    crate::repo_tests::symbols(&mut rep);
     rep.print();
 }
